@@ -608,10 +608,10 @@ Ownership ==
   /\ \A r \in Readers : rpc[r] = "end" => rtask[r][ridx[r]].st = READY
   /\ \A w \in Writers : wpc[w] = "end" => wtask[w][widx[w]].st = READY
 
-\* the sorted enumeration of Enabled, without recursion
-IsEnabledPrefix(s) ==
-  \A i \in 1..Len(s) : s[i] \in Enabled /\ Cardinality({p \in Enabled : p < s[i]}) = i - 1
+\* the sorted enumeration of Enabled, without recursion (a constant: TLC evaluates it once)
+EnabledSeq == [k \in 1..NEnabled |-> KthEnabled(k - 1)]
 IsPrefix(s, t) == Len(s) <= Len(t) /\ \A i \in 1..Len(s) : s[i] = t[i]
+IsEnabledPrefix(s) == IsPrefix(s, EnabledSeq)
 Firsts(s) == [i \in 1..Len(s) |-> s[i][1]]
 NotSkipped == Firsts(SelectSeq(mwritten, LAMBDA e : ~e[2]))
 
